@@ -115,10 +115,10 @@ PROPS['C08'] = dict(
     functions=fns('C08'),
     assumptions=[A_LIST, A_TRANS, A_BUILD],
     trusted_base=['the per-tile cell functions Cell_<builder> of contracts/roberta_generator.py: what the Roborta rules of the statement prescribe for tile (a, b) of each state group'],
-    undecided_clauses=["the assembly of the builders' lists into each game (group order, offsets passed, owners and rewards per group) inside write_robot_A/B/C is not yet under a deductive contract; it is covered by the bounded executable contract (bisimulation of each generated game with the Roborta game of the board, all boards up to 2 tiles (3 in the thorough tier) x all arrow/loose layouts, plus sampled larger boards)",
+    undecided_clauses=["the step from 'every state number carries the cell the rules prescribe' (proved, below) to 'bisimilar from the initial state to the abstract Roborta game' is the observation that the reference game is DEFINED over the same numbering group*n_tiles + a*width + b; the bisimulation itself (partition refinement against an independently written abstract game) is the bounded executable contract: all boards up to 2 tiles (3 in the thorough tier) x all arrow/loose layouts, plus sampled larger boards",
                        "that the written FILE denotes the same dict (str(game).replace(...) then eval) is outside any solver theory: bounded (C11)"],
-    level_text="All nine transition builders are verified from their real AST for boards of ANY length and width >= 1 and any arrow / loose-tile layout: each returns exactly length*width transition lists and the list at position a*width+b equals, element by element (labels, probabilities, targets, order), the cell the Roborta rules prescribe for tile (a, b): wrap-around within the row by cases, win from the last row, tile-break / robot-break / light-break probabilities p and 1-p on the right branches, Yellow withheld on down-only tiles, free choice restricted to the tile's arrows.",
-    level_note="Trusted: z3/cvc5, the encoder (nonlinear index arithmetic a*width+b handled by z3), the cell functions as the reading of the rules. The composition of the groups inside write_robot_A/B/C and the file text are bounded stand-ins (bisimulation oracle), not proved.",
+    level_text="All nine transition builders are verified from their real AST for boards of ANY length and width >= 1 and any arrow / loose-tile layout: each returns exactly length*width transition lists and the list at position a*width+b equals, element by element (labels, probabilities, targets, order), the cell the Roborta rules prescribe for tile (a, b): wrap-around within the row by cases, win from the last row, tile-break / robot-break / light-break probabilities p and 1-p on the right branches, Yellow withheld on down-only tiles, free choice restricted to the tile's arrows. write_robot_A/B/C are verified up to the statement `game = {...}`: for every group g and tile (a,b), transition_list[g*n_tiles + a*width + b] is the cell of the builder the rules assign to group g with the offsets of the right target groups (e.g. game C: light -> light-failure states 8/9, those -> free choice 3 or obedient robot 1/2, robots -> try-states 5/6/7, those -> landing 4, landing -> light 0 or the losing state); the last two states are the absorbing loser and winner; owners are Player 2 / Player 1 / Probabilistic per group; rewards sit on the light states (my_rewards[a*width+b] = rewards[a][b], proved through the flattening lemma) and are 0 elsewhere; the only final state is the winner.",
+    level_note="Trusted: z3/cvc5, the encoder (nonlinear index arithmetic a*width+b: one proved range lemma L_Idx_bound), the cell functions and the group table as the reading of the rules. The file text (str/replace/eval) is a bounded stand-in, not proved.",
 )
 PROPS['C11'] = dict(
     functions=fns('C11'),
@@ -234,3 +234,7 @@ PROPS['C12'] = dict(
 for _p in ('C01', 'C03', 'C06', 'C07'):
     PROPS[_p].setdefault('static', [])
     PROPS[_p]['static'] = list(PROPS[_p]['static']) + [('lean-meta-lemmas-M_LFP-From0_inv', ST.lean_meta)]
+
+PROPS['C08']['lemmas'] = ['L_Idx_bound', 'L_FlatOff_uniform']
+PROPS['C11']['lemmas'] = ['L_Idx_bound', 'L_FlatOff_uniform']
+PROPS['C11']['level_text'] += " The three write_robot functions are verified up to `game = {...}` (C08): list lengths agree (total*n_tiles + 2 each), every player string is one of the three, the single final state is the absorbing winner total*n_tiles+1 and the loser total*n_tiles is absorbing, every state's transition list is the non-empty cell of its builder."
